@@ -62,6 +62,33 @@ def check_case(R, drv, d, mod, n, dt, offset, tag, combos):
     return results
 
 
+def check_jsolve(R, drv, mod, istim, dt, inp):
+    """the code-shaped model of the custom solver (Model.SolveJaxley: padded flat layout, level schedule, Thomas rows, branch-point
+    elimination) on the arrays and the indexer the implementation itself built: Float model == implementation's `solves`;
+    in exact arithmetic the flat model == the abstract Hines recursion on the rose tree of the same system"""
+    from jsolvelib import capture, jsolve_line, parse_jsolve
+    for backend in ("jaxley.thomas", "jaxley.stone"):
+        rec = capture(mod, istim, dt, backend)
+        if rec is None:
+            R.count(f"jsolve:{backend}:refused"); continue
+        o_r, o_f = [parse_jsolve(l) for l in drv.batch([jsolve_line(rec, "rat"), jsolve_line(rec, "float")])]
+        R.evaluations += 1
+        R.count(f"jsolve:{backend}:ok")
+        ji = dict(inp, backend=backend, layout=dict(cumsum=[int(x) for x in rec["idx"].cumsum_ncomp], ncomp=[int(x) for x in rec["idx"].ncomp_per_branch]))
+        if o_r is None or o_f is None:
+            R.disagree("jsolve-driver-error", input=ji); continue
+        if not o_r["exact"]:
+            R.disagree("flat-solver-model-differs-from-hines-recursion", input=ji)
+        out = rec["out"]
+        scale = 1.0 + float(np.max(np.abs(out)))
+        xf, xr = np.asarray(o_f["x"]), np.asarray(o_r["x"])
+        if xf.shape != out.shape or not (np.max(np.abs(xf - out)) <= 1e-9 * scale):
+            R.disagree("solver-arrays", input=ji, impl=out.tolist(), model_float=xf.tolist())
+        if not (np.max(np.abs(xr - out)) <= TOL_DIFF * scale):
+            R.disagree("solver-arrays-exact", input=ji, impl=out.tolist(), model_exact=xr.tolist())
+        R.extra["jsolve_max_float_diff"] = max(R.extra.get("jsolve_max_float_diff", 0.0), float(np.max(np.abs(xf - out)) / scale))
+
+
 def tag_is_branched(tag, branched):
     return branched or tag.startswith("net")
 
@@ -96,6 +123,7 @@ def check_net(R, drv, ds, same, dt, combos):
         for i, vv in enumerate(d["istim"]):
             allstim[off + i] = vv
         off += sum(d["ncomp"])
+    check_jsolve(R, drv, net, allstim, dt, dict(cells=ds, dt=dt, module=f"network of {k}"))
     for solver, backend in combos:
         st, x = one_step(net, total, allstim, dt, solver, backend)
         R.evaluations += 1
@@ -169,7 +197,9 @@ def run(args):
         dt = float(np.exp(rng.uniform(np.log(1e-3), np.log(1e2))))
         if kind == "cell":
             d = random_cell_desc(rng, morph=(parents, ncomp))
-            check_case(R, drv, d, build_cell(d), sum(ncomp), dt, 0, "cell", combos)
+            cm_ = build_cell(d)
+            check_case(R, drv, d, cm_, sum(ncomp), dt, 0, "cell", combos)
+            check_jsolve(R, drv, cm_, d["istim"], dt, dict(cell=d, dt=dt))
             R.distinct.add(json.dumps([parents, ncomp]))
         elif kind == "netdiff":
             ds = [random_cell_desc(rng, morph=(p_, n_)) for p_, n_ in zip(parents, ncomp)]
@@ -196,6 +226,7 @@ def run(args):
             d = random_cell_desc(rng, 7, 4)
             mod = build_cell(d)
             check_case(R, drv, d, mod, sum(d["ncomp"]), dt, 0, "cell", combos)
+            check_jsolve(R, drv, mod, d["istim"], dt, dict(cell=d, dt=dt))
             if len(d["parents"]) > 1 and len(set(d["ncomp"])) > 1:
                 R.distinct.add(json.dumps([d["parents"], d["ncomp"]]))
             if len(R.samples) < 2:
